@@ -7,6 +7,7 @@ import (
 
 	"go.dedis.ch/kyber/v4"
 	"go.dedis.ch/kyber/v4/group/edwards25519"
+	"go.dedis.ch/kyber/v4/share"
 	vss "go.dedis.ch/kyber/v4/share/vss/rabin"
 	"go.dedis.ch/kyber/v4/sign/schnorr"
 	"verif/harness/alpha"
@@ -41,7 +42,7 @@ func (w *rabWorld) RespBeforeDeal() bool         { return w.dealerObs }
 func (w *rabWorld) TimeoutMakesComplaints() bool { return true }
 func (w *rabWorld) Processable(v string) bool {
 	switch v {
-	case "wrong-recipient", "forged-dealer", "sig-flipped", "wrong-index":
+	case "wrong-recipient", "forged-dealer", "sig-flipped", "wrong-index", "wrong-index+T=alt":
 		return false
 	}
 	return true
@@ -102,6 +103,14 @@ func newRabWorld(n, t, k int, dealerObs bool) *rabWorld {
 		mk("honest", edit(func(pd *vss.Deal) {}))
 		mk("share+1", edit(func(pd *vss.Deal) { pd.SecShare.V = base.Scalar().Add(pd.SecShare.V, one) }))
 		mk("wrong-index", edit(func(pd *vss.Deal) { pd.SecShare.I = uint32((k + 1) % n) }))
+		// refused for its index, and carrying another valid threshold: nothing of it may survive into the session
+		altT := t - 1
+		if altT < (n+1)/2 || altT < 2 {
+			altT = t + 1
+		}
+		if altT <= n {
+			mk("wrong-index+T=alt", edit(func(pd *vss.Deal) { pd.SecShare.I = uint32((k + 1) % n); pd.T = uint32(altT) }))
+		}
 		mk("commit-replaced", edit(func(pd *vss.Deal) {
 			cs := append([]kyber.Point{}, pd.Commitments...)
 			cs[len(cs)-1] = other
@@ -208,6 +217,30 @@ func newRabWorld(n, t, k int, dealerObs bool) *rabWorld {
 		pd4.SecShare.V = base.Scalar().Add(pd4.SecShare.V, one)
 		if j, err := d4.ProcessResponse(cloneRespR(r2)); err == nil && j != nil {
 			w.justs[fmt.Sprintf("just:%d:bad", i)] = j
+		}
+		// a justification that reveals a share lying on the committed polynomial - at an index beyond the last
+		// verifier: it does not answer i's complaint about share i and must count as an incorrect justification
+		if firstOther {
+			d6 := w.dealer("main", w.dLong, w.secret)
+			var ss, rs []*share.PriShare
+			for m := 0; m < n; m++ {
+				if pdm, err := d6.PlaintextDeal(m); err == nil {
+					ss = append(ss, &share.PriShare{I: pdm.SecShare.I, V: pdm.SecShare.V.Clone()})
+					rs = append(rs, &share.PriShare{I: pdm.RndShare.I, V: pdm.RndShare.V.Clone()})
+				}
+			}
+			_ = rs
+			if sp, err := share.RecoverPriPoly(base, ss, uint32(w.t), uint32(n)); err == nil {
+				pd6, _ := d6.PlaintextDeal(i)
+				oobI := uint32(n + 1)
+				pd6.SecShare = sp.Eval(oobI)
+				if rp, err := share.RecoverPriPoly(base, rs, uint32(w.t), uint32(n)); err == nil {
+					pd6.RndShare = rp.Eval(oobI)
+				}
+				if j, err := d6.ProcessResponse(cloneRespR(r2)); err == nil && j != nil {
+					w.justs[fmt.Sprintf("just:%d:bad-share-index-out-of-range", i)] = j
+				}
+			}
 		}
 	}
 	if !dealerObs {
